@@ -755,6 +755,9 @@ func mutation(seed int64, t *target, i int) []byte {
 	g := t.grammar
 	own := c.by[g]
 	toks := tokensFor(g)
+	if g == "plug" {
+		return plugRandom(rng)
+	}
 	if g == "keyed" {
 		if rng.Intn(20) != 0 {
 			return keyedRandom(rng, fmt.Sprintf("mut-%d-%d", seed, i), c.by["agefile"])
